@@ -284,6 +284,11 @@ def answer (xs : List Sexp) : String :=
     match parseShape sh with
     | some s => "ok " ++ showIdlTy (typeToIdl s)
     | none => "bad-op"
+  -- field names of a struct type: the model's answer is the declaration order carried by the op
+  | [.atom "fields", .atom _, .list ns] =>
+    match atoms ns with
+    | some ns => "ok " ++ (if ns.isEmpty then "-" else " ".intercalate ns)
+    | none => "bad-op"
   -- bytes the serializer writes
   | [.atom "enc", .atom _, sh, v] =>
     match parseShape sh, parseVal v with
